@@ -4,6 +4,7 @@ import (
 	"bytes"
 	"fmt"
 	"io"
+	stdslog "log/slog"
 	"os"
 	"sort"
 	"strings"
@@ -196,6 +197,12 @@ func (o wop) String() string {
 
 func (m *wmodel) apply(o wop) {
 	id := fmt.Sprintf("W%d", o.w)
+	switch o.w {
+	case 12:
+		id = wSTDOUT // os.Stdout handed over by the application: the same device as the default one, a second member
+	case 13:
+		id = wSTDERR
+	}
 	touch := func() { m.fresh = false }
 	switch o.name {
 	case "SetWriter":
@@ -326,11 +333,15 @@ func newC03env(configureDefault bool) (*c03env, error) {
 	_ = f10.Close()
 	e.pool = append(e.pool, f10)
 	e.shape = append(e.shape, "closed *os.File")
+	// W12, W13: os.Stdout / os.Stderr themselves, ADDED by the application (a program that picks its writer from a command
+	// line option): one more member of the list, also when the list still holds the default device for the same file
 	// W11: a LevelSettable destination registered through the exported NewLogWriter wrapper
 	w11 := mon.New(e.log, "W11", mon.ShapeLvlPlain)
 	e.pool = append(e.pool, slog.NewLogWriter(w11))
 	e.shape = append(e.shape, "NewLogWriter(LevelSettable)")
 	e.lvlS["W11"] = true
+	e.pool = append(e.pool, os.Stdout, os.Stderr) // W12, W13
+	e.shape = append(e.shape, "os.Stdout", "os.Stderr")
 	var err error
 	e.fds, err = captureFds()
 	if err != nil {
@@ -479,6 +490,19 @@ var c03forms = func() []c03form {
 		c03form{"Print(\"\")", slog.AlwaysLevel, true, func(lg *slog.Entry, id string) { lg.Print("") }, nil},
 		c03form{"Print(\" \\n\")", slog.AlwaysLevel, true, func(lg *slog.Entry, id string) { lg.Print(" \n") }, nil},
 		c03form{name: "PrintContext(\"\\n\")", sev: slog.AlwaysLevel, blank: true, emit: func(lg *slog.Entry, id string) { lg.PrintContext(bg, "\n") }},
+	)
+	// ... and through the log/slog front end built on the logger with format options (JSON, then colour: at least one of
+	// the two differs from what the logger printed before): a record of that front end goes where the logger's go
+	fs = append(fs,
+		c03form{name: "log/slog handler(JSON).Info", sev: slog.InfoLevel, emit: func(lg *slog.Entry, id string) {
+			stdslog.New(slog.NewSlogHandler(lg, &slog.HandlerOptions{JSON: true, NoColor: true, NoSource: true, Level: slog.PanicLevel})).Info(id)
+		}},
+		c03form{name: "log/slog handler(colour).Error", sev: slog.ErrorLevel, emit: func(lg *slog.Entry, id string) {
+			stdslog.New(slog.NewSlogHandler(lg, &slog.HandlerOptions{JSON: false, NoColor: false, NoSource: true, Level: slog.PanicLevel})).Error(id)
+		}},
+		c03form{name: "log/slog handler(logfmt).Warn", sev: slog.WarnLevel, emit: func(lg *slog.Entry, id string) {
+			stdslog.New(slog.NewSlogHandler(lg, &slog.HandlerOptions{JSON: false, NoColor: true, NoSource: true, Level: slog.PanicLevel})).Warn(id)
+		}},
 	)
 	for _, p := range [][2]slog.Level{{slog.InfoLevel, slog.DebugLevel}, {slog.ErrorLevel, slog.WarnLevel}, {slog.InfoLevel, slog.ErrorLevel}, {slog.WarnLevel, slog.InfoLevel}, {slog.AlwaysLevel, slog.TraceLevel}} {
 		outer, inner := p[0], p[1]
@@ -772,6 +796,7 @@ func c03alphabet(full bool) []wop {
 		}
 	}
 	if full {
+		a = append(a, wop{name: "AddWriter", w: 12}, wop{name: "AddErrorWriter", w: 13}, wop{name: "AddLevelWriter", w: 12, lvl: slog.InfoLevel}, wop{name: "AddWriter", w: 12})
 		a = append(a, wop{name: "CloseAnotherLogger", w: 0}, wop{name: "CloseAnotherLogger", w: 1}, wop{name: "pkg.Reset", w: -1}, wop{name: "pkg.Reset", w: -1})
 		for _, n := range []string{"DeriveWithWriter", "DeriveWithErrorWriter"} {
 			for _, w := range []int{0, 1, 2, 3, 4} {
